@@ -5,7 +5,7 @@ import json, os, re
 HERE = os.path.dirname(os.path.abspath(__file__))
 LEAN = os.path.join(os.path.dirname(HERE), "lean")
 NOT_YET = {
-    "C01": ["the reversed-layout (type byte last) and 32-bit convenience forms of the split / chained families are proved on the model and tied by the correspondence only; all nine families' put/get/length are proved on machine-translated code (the unrolled chained reader additionally as a literal transcription proved equal to the format-level reader)"],
+    "C01": ["the reversed-layout (type byte last) forms of the split families and the 32-bit reader of the unrolled chained family are proved on the model and tied by the correspondence only (the 32-bit forms of tagged and chained-simple are translated: c_forms32); all nine families' put/get/length are proved on machine-translated code (the unrolled chained reader additionally as a literal transcription proved equal to the format-level reader)"],
     "C04": ["Elias gamma/delta bit definitions are carried with the Elias model under C02/C03 (code lengths proved there)"],
     "C02": ["every codec round trip is a theorem on the model (incl. the FOR block reader: for_block_roundtrip); on machine-translated code: delta, zigzag, RLE ± header + random access, FOR decode + random access, group decode + random access; PFOR, BP128, Elias, dictionary and the FOR/group ENCODERS are tied by the correspondence only"],
     "C03": [],
